@@ -150,6 +150,8 @@ def run(repo: Repo, rep: Report, tier: str) -> None:
     from ..core import corpus as _corpus
     from . import c13 as _c13
     _c13._slots(repo, Only(rep, {"R13.3"}), _corpus.explore_all(repo, tier))
+    from ..core import helper_contracts as _hc
+    _hc.report(repo, rep, "R10.9", _hc.get_config_contract(repo), "mashumaro.core.meta.code.builder::CodeBuilder.get_config")
 
 def _r10_3(repo: Repo, rep: Report) -> None:
     seq: List[Tuple[str, List[str]]] = []
@@ -226,3 +228,6 @@ def _r10_3(repo: Repo, rep: Report) -> None:
 _ADDENDUM = ' R10.7: Registry.get makes the innermost Annotated type the current annotated_type unconditionally and dispatches on the substituted origin. Borrowed: R13.3 (dialect cache slots are specialised by format and type arguments).'
 EXPLANATION += _ADDENDUM
 LEVEL_TEXT += _ADDENDUM
+_ADD2 = ' R10.9: contract of get_config (as R08.8).'
+EXPLANATION += _ADD2
+LEVEL_TEXT += _ADD2
